@@ -5,6 +5,7 @@
 (* [s |-> "idx", key |-> value].                                           *)
 (***************************************************************************)
 EXTENDS Values
+RevSeqW(sq) == [i \in 1..Len(sq) |-> sq[Len(sq) + 1 - i]]
 AttrStep(n) == [s |-> "attr", n |-> n]
 IdxStep(k)  == [s |-> "idx", key |-> k]
 NameKey(n) == StrV(<<n>>)             \* attribute / map key names are single characters here
@@ -87,6 +88,9 @@ WalkFailed(e) ==
   \cup (IF e.um.ok /\ e.um.re = root /\ e.um.v = UnmarkDeep(root)
            /\ {[p |-> e.um.pvm[i].p, m |-> ToSet(e.um.pvm[i].m)] : i \in 1..Len(e.um.pvm)} = MarkPaths(root, <<>>)
         THEN {} ELSE {"C19.UnmarkRemarkRestores"})
+  \* the caller's list of paths is an input: marking with it again gives the same value, and the list is unchanged
+  \cup (IF e.um.ok /\ Has(e.um, "re2") /\ ~(e.um.re2 = root /\ e.um.pvm2 = e.um.pvm) THEN {"C19.MarkWithPathsReusable"} ELSE {})
+  \cup (IF e.um.ok /\ Has(e.um, "re3") /\ ~(e.um.re3 = root /\ e.um.re4 = root /\ e.um.rev2 = RevSeqW(e.um.pvm)) THEN {"C19.MarkWithPathsReusable"} ELSE {})
   \cup (IF e.tid.ok /\ ~WellFormed(e.tid.val) THEN {"C06.WellFormed"} ELSE {})
 ApplyFailed(e) ==
   LET pv == PathValid(e.root, e.p) IN
